@@ -112,6 +112,10 @@ impl<'a> Reader<'a> {
         if self.begin == self.end {
             self.refill();
         }
+        if self.eof {
+            // nothing left: do not return a stale byte from the buffer
+            return 0;
+        }
         self.buf[self.begin]
     }
 }
